@@ -266,10 +266,14 @@ structure ResLimiter where
   global : Option (Nat × Bucket)
   cl : Option ClientLimiter
 
+/-- `cfg.GlobalLimit > 0` / `cfg.Client.Limit > 0`: the limiter is configured (tied to the source by translation,
+    `Lemmas/TranslatedC15.lean`) -/
+@[simp] def limitSet (limit : Int) : Bool := decide (limit > 0)
+
 /-- `initResourceLimiter` -/
 def ResLimiter.init (cfg : LimiterConfig) : ResLimiter :=
-  { global := if cfg.globalLimit > 0 then some (cfg.globalLimit.toNat, Bucket.fresh) else none
-    cl := if cfg.client.limit > 0 then some (ClientLimiter.new cfg.client) else none }
+  { global := if limitSet cfg.globalLimit then some (cfg.globalLimit.toNat, Bucket.fresh) else none
+    cl := if limitSet cfg.client.limit then some (ClientLimiter.new cfg.client) else none }
 
 inductive Res where
   | ok
